@@ -249,6 +249,76 @@ func Filter(r *gen.R, depth int, malformed bool) bson.D {
 	return d
 }
 
+// c10Enrich gives some `$exists` operators a Decimal128 argument (zeros of any sign/exponent, NaN, infinities:
+// MongoDB truthiness) and some `$all` operands an array-valued member (mostly one of the document's own arrays),
+// recursively through $and/$or/$nor, $not and $elemMatch. Used by stream match only (the shared grammar is unchanged).
+func c10Enrich(r *gen.R, arrs []bson.A, q bson.D) bson.D {
+	isOps := func(v interface{}) (bson.D, bool) {
+		od, ok := v.(bson.D)
+		return od, ok && len(od) > 0 && len(od[0].Key) > 0 && od[0].Key[0] == '$'
+	}
+	var ops func(od bson.D) bson.D
+	ops = func(od bson.D) bson.D {
+		out := make(bson.D, 0, len(od))
+		for _, o := range od {
+			switch o.Key {
+			case "$exists":
+				if r.P(40) {
+					o.Value = existsDecs[r.N(len(existsDecs))]
+				}
+			case "$all":
+				if a, ok := o.Value.(bson.A); ok && r.P(40) {
+					var m bson.A
+					if len(arrs) > 0 && r.P(70) {
+						m = arrs[r.N(len(arrs))]
+					} else {
+						m = r.Arr(1, false)
+					}
+					na := append(bson.A{}, a...)
+					if len(na) > 0 && r.P(50) {
+						na[r.N(len(na))] = m
+					} else {
+						na = append(na, m)
+					}
+					o.Value = na
+				}
+			case "$not":
+				if d, ok := isOps(o.Value); ok {
+					o.Value = ops(d)
+				}
+			case "$elemMatch":
+				if d, ok := isOps(o.Value); ok {
+					o.Value = ops(d)
+				} else if d, ok := o.Value.(bson.D); ok {
+					o.Value = c10Enrich(r, arrs, d)
+				}
+			}
+			out = append(out, o)
+		}
+		return out
+	}
+	out := make(bson.D, 0, len(q))
+	for _, e := range q {
+		if len(e.Key) > 0 && e.Key[0] == '$' {
+			if a, ok := e.Value.(bson.A); ok {
+				na := make(bson.A, len(a))
+				for i := range a {
+					if d, ok := a[i].(bson.D); ok {
+						na[i] = c10Enrich(r, arrs, d)
+					} else {
+						na[i] = a[i]
+					}
+				}
+				e.Value = na
+			}
+		} else if od, ok := isOps(e.Value); ok {
+			e.Value = ops(od)
+		}
+		out = append(out, e)
+	}
+	return out
+}
+
 func matchReply(doc, q bson.D) string {
 	return run.Safe(func() string {
 		ok, err := mongokit.Match(&doc, &q)
@@ -301,7 +371,7 @@ func init() {
 	run.Register(&run.Stream{
 		Name: "match",
 		Rule: "documents nested ≤3 (arrays of scalars/documents/arrays, null vs missing, all types) × filters from the operator grammar up to nesting 3, 15% malformed; " +
-			"plus law instances ($nor/$ne/$nin/$not negations, $and/$or, $in, $gte/$lte) evaluated on the implementation; non-trivial = distinct case whose filter evaluated without error",
+			"60% of the filters with Decimal128 $exists arguments / array-valued $all members; plus law instances ($nor/$ne/$nin/$not negations, $and/$or, $in, $all, $gte/$lte) evaluated on the implementation; non-trivial = distinct case whose filter evaluated without error",
 		Gen: func(r *gen.R, idx int) []run.Case {
 			malformed := r.P(15)
 			doc := r.Doc(3, r.P(30), r.P(50))
@@ -310,6 +380,11 @@ func init() {
 			}
 			q := Filter(r, 2, malformed)
 			r.Hint = nil
+			if r.P(60) {
+				var arrs []bson.A
+				specDocArrays(doc, &arrs)
+				q = c10Enrich(r, arrs, q)
+			}
 			impl := matchReply(doc, q)
 			tags := []string{}
 			if malformed {
@@ -387,6 +462,16 @@ func init() {
 			}
 			// $in does not type-bracket, $eq does: the law "in = ∨ eq" holds because equal values share a class
 			chk("in_is_disj_eq", in, disj)
+			// $all (non-empty) is the short-circuit conjunction of the equalities (MongoDB's definition of $all)
+			allv, _ := implMatch(doc, lit("$all", vs))
+			conj := 1
+			for _, x := range vs {
+				if e, _ := implMatch(doc, lit("$eq", x)); e != 1 {
+					conj = e
+					break
+				}
+			}
+			chk("all_is_conj_eq", allv, conj)
 			// $nor / $or / $and over sub-filters
 			q2 := Filter(r, 1, false)
 			qv, _ := implMatch(doc, q)
